@@ -35,6 +35,14 @@ CHECKS = {
          "Every workload is run once with complete transfers and once under a seeded schedule on the writer sink (1 byte, 1..n, Interrupted bursts), piece sources, reader/repair source and repair output sink; images, read-back and repair results must equal the memory run."),
  "C14": ("fault_enumeration", "deterministic simulation: flush = sync, sink death at/after every flush point = crash, repair = recovery, vs model of bytes appended before the flush",
          "For every flush of every seeded history the sink dies right after the flush returned and at later points before the next one; repair must recover at least what was appended before the flush (authenticated mode: what lies in complete chunks) and only prefixes."),
+ "C15": ("exploration", "deterministic simulation with a counting allocator seam: generator source -> counting/spilling sink, repair and linear extraction from the spill file; peak live heap vs ceiling and vs amount streamed",
+         "On the unmodified prod build a generator streams two sizes (16/64 MiB quick, 64 MiB..1 GiB thorough) through every layer set; peak live heap of write, repair and linear extraction must stay under fixed ceilings and not grow with the bytes streamed; growth with files x runs bounded linearly."),
+ "C16": ("exploration", "simulation of the mlar process on a private scratch tree: generated member-name grammar x command histories, snapshot diff of everything outside the output directory",
+         "Archives with member names from a path grammar ('..', '.', empty, long, unicode, absolute, trailing separators) extracted by the real mlar binary in whole/name/glob forms with relative and absolute output directories; nothing outside the output directory may change; collision-free members must be extracted exactly. No fault or schedule dimension (weakest fit, said in DESIGN.md)."),
+ "C17": ("exploration", "simulation of mlar command pipelines on generated file trees vs the tree as model; key-fault injection",
+         "create (files / directory / stdin forms) then list, list -vv, cat, both extract forms, to-tar and seeded repair/convert chains across layer and key choices must all return the input files' exact bytes, names, sizes and hashes; wrong, missing or superfluous keys must fail without output content."),
+ "C20": ("exploration", "deterministic simulation of the C entry points linked as an rlib: simulated write/read/seek/file callbacks with seeded acceptance schedules and failure injection; null and cleared-handle call histories",
+         "Writer histories expressed through the C interface with splitting write callbacks must produce archives the Rust reader reads back to the model; extraction through the C interface must hand each accepted writer the exact bytes; failing callbacks, a missing key, NULL and interface-cleared handles must give a non-success status without killing the process."),
 }
 NOT_APPLICABLE = {
  "C18": "pure parsing/generation functions of a byte string: no state, stream, schedule, fault or history for a simulator to own (input generation only)",
